@@ -277,6 +277,17 @@ def dist_shard(tier):
     tally = Tally()
     f64 = torch.float64
 
+    def G(fn, *a):
+        """call a distribution function; tensor arguments must come back untouched (the caller owns them)"""
+        g = Guard(*a)
+        r = fn(*a)
+        bad = g.mutated()
+        if bad:
+            i = bad[0]
+            tally.violation(f"dist:input-mutated:{fn.__qualname__}", {"function": fn.__qualname__, "argument": i, "before": g.keep[i].tolist()},
+                            f"{fn.__qualname__} modified its argument {i} in place: {g.keep[i].tolist()} -> {g.t[i].tolist()}", g.keep[i].tolist(), g.t[i].tolist())
+        return r
+
     def chk(key, case, got, exp, tol):
         tally.add("evaluations")
         if not (abs(got - exp) <= tol * max(1.0, abs(exp))):
@@ -289,10 +300,10 @@ def dist_shard(tier):
         case = {"dist": "Poisson", "rate": rate}
         try:
             r = torch.tensor(rate, dtype=f64)
-            pmf = Poisson.pmf(k, r)
-            logpmf = Poisson.logpmf(k, r)
-            cdf = Poisson.cdf(k, r)
-            logcdf = Poisson.logcdf(k, r)
+            pmf = G(Poisson.pmf, k, r)
+            logpmf = G(Poisson.logpmf, k, r)
+            cdf = G(Poisson.cdf, k, r)
+            logcdf = G(Poisson.logcdf, k, r)
         except Exception as ex:
             tally.violation(f"poisson:exception:{type(ex).__name__}", case, repr(ex))
             continue
@@ -310,10 +321,26 @@ def dist_shard(tier):
         chk("poisson:total", case, float(pmf.sum()), 1.0, 1e-6)
         m = float((k * pmf).sum())
         v = float(((k - m) ** 2 * pmf).sum())
-        chk("poisson:mean", case, m, float(Poisson.mean(r)), 1e-5)
-        chk("poisson:variance", case, v, float(Poisson.variance(r)), 1e-5)
+        chk("poisson:mean", case, m, float(G(Poisson.mean, r)), 1e-5)
+        chk("poisson:variance", case, v, float(G(Poisson.variance, r)), 1e-5)
         # non-integer support uses floor for the cdf
-        chk("poisson:cdf-floor", case, float(Poisson.cdf(torch.tensor(2.5, dtype=f64), r)), float(cdf[2]), 1e-9)
+        chk("poisson:cdf-floor", case, float(G(Poisson.cdf, torch.tensor(2.5, dtype=f64), r)), float(cdf[2]), 1e-9)
+    # ---- Poisson on an integer-typed support with tensor-valued (non-integral) rates: same numbers as on the float support
+    kf = torch.arange(0, 40, dtype=f64).unsqueeze(-1)
+    ki = torch.arange(0, 40).unsqueeze(-1)
+    rates = torch.tensor([0.7, 2.5, 6.25], dtype=f64)
+    for nm, fn_ in (("pmf", Poisson.pmf), ("logpmf", Poisson.logpmf), ("cdf", Poisson.cdf), ("logcdf", Poisson.logcdf)):
+        case = {"dist": "Poisson", "function": nm, "support": "int64 arange(40)", "rates": rates.tolist()}
+        tally.add("evaluations")
+        try:
+            a, b = G(fn_, ki, rates.clone()), G(fn_, kf, rates.clone())
+        except Exception as ex:
+            tally.violation(f"poisson:int-support:exception:{type(ex).__name__}", case, repr(ex))
+            continue
+        if a.shape != b.shape or not torch.allclose(a.to(f64), b, rtol=1e-6, atol=1e-9):
+            tally.violation(f"poisson:int-support:{nm}", case, f"{nm} on the integer support differs from the float support, e.g. at k=2: "
+                            f"{a[2].tolist()} vs {b[2].tolist()}", b[2].tolist(), a[2].tolist())
+        tally.mark("nontrivial", ("poisson-int-support", nm))
     # ---- Normal
     for loc in (-1.0, 0.0, 2.0):
         for scale in (0.25, 1.0, 2.0):
@@ -322,7 +349,7 @@ def dist_shard(tier):
             x = torch.linspace(loc - 10 * scale, loc + 10 * scale, n, dtype=f64)
             L, S = torch.tensor(loc, dtype=f64), torch.tensor(scale, dtype=f64)
             try:
-                pdf, logpdf, cdf, logcdf = Normal.pdf(x, L, S), Normal.logpdf(x, L, S), Normal.cdf(x, L, S), Normal.logcdf(x, L, S)
+                pdf, logpdf, cdf, logcdf = G(Normal.pdf, x, L, S), G(Normal.logpdf, x, L, S), G(Normal.cdf, x, L, S), G(Normal.logcdf, x, L, S)
             except Exception as ex:
                 tally.violation(f"normal:exception:{type(ex).__name__}", case, repr(ex))
                 continue
@@ -340,9 +367,9 @@ def dist_shard(tier):
             chk("normal:total", case, float(torch.trapezoid(pdf, x)), 1.0, 1e-6)
             m = float(torch.trapezoid(x * pdf, x))
             v = float(torch.trapezoid((x - m) ** 2 * pdf, x))
-            chk("normal:mean", case, m, float(Normal.mean(L)), 1e-5)
-            chk("normal:variance", case, v, float(Normal.variance(S)), 1e-5)
-            l2, s2 = Normal.params_mv(Normal.mean(L), Normal.variance(S))
+            chk("normal:mean", case, m, float(G(Normal.mean, L)), 1e-5)
+            chk("normal:variance", case, v, float(G(Normal.variance, S)), 1e-5)
+            l2, s2 = G(Normal.params_mv, G(Normal.mean, L), G(Normal.variance, S))
             chk("normal:params_mv-loc", case, float(l2), loc, 1e-9)
             chk("normal:params_mv-scale", case, float(s2), scale, 1e-9)
     # ---- LogNormal (integrate in log space: x = e^y)
@@ -354,12 +381,12 @@ def dist_shard(tier):
             x = torch.exp(y)
             L, S = torch.tensor(loc, dtype=f64), torch.tensor(scale, dtype=f64)
             try:
-                pdf, logpdf, cdf = LogNormal.pdf(x, L, S), LogNormal.logpdf(x, L, S), LogNormal.cdf(x, L, S)
+                pdf, logpdf, cdf = G(LogNormal.pdf, x, L, S), G(LogNormal.logpdf, x, L, S), G(LogNormal.cdf, x, L, S)
             except Exception as ex:
                 tally.violation(f"lognormal:exception:{type(ex).__name__}", case, repr(ex))
                 continue
             try:
-                logcdf = LogNormal.logcdf(x, L, S)
+                logcdf = G(LogNormal.logcdf, x, L, S)
             except RecursionError as ex:
                 tally.violation("lognormal:logcdf:RecursionError", case, "LogNormal.logcdf recursed into itself", None, "RecursionError")
                 logcdf = None
@@ -381,9 +408,9 @@ def dist_shard(tier):
             chk("lognormal:total", case, float(torch.trapezoid(dens_y, y)), 1.0, 1e-6)
             m = float(torch.trapezoid(x * dens_y, y))
             v = float(torch.trapezoid((x - m) ** 2 * dens_y, y))
-            chk("lognormal:mean", case, m, float(LogNormal.mean(L, S)), 1e-4)
-            chk("lognormal:variance", case, v, float(LogNormal.variance(L, S)), 1e-3)
-            l2, s2 = LogNormal.params_mv(LogNormal.mean(L, S), LogNormal.variance(L, S))
+            chk("lognormal:mean", case, m, float(G(LogNormal.mean, L, S)), 1e-4)
+            chk("lognormal:variance", case, v, float(G(LogNormal.variance, L, S)), 1e-3)
+            l2, s2 = G(LogNormal.params_mv, G(LogNormal.mean, L, S), G(LogNormal.variance, L, S))
             chk("lognormal:params_mv-loc", case, float(l2), loc, 1e-6)
             chk("lognormal:params_mv-scale", case, float(s2), scale, 1e-6)
     tally.sample({"part": "distributions", "grids": "Poisson rate {0.5,1,3,10}; Normal/LogNormal loc x scale 3x3"})
